@@ -278,9 +278,19 @@ impl Property for C13 {
     fn run(&self, ctx: &mut Ctx) -> Result<(), Violation> {
         let long = ctx.ch.chance(1, if ctx.thorough { 5 } else { 8 });
         let ntags = 1 + ctx.ch.index(4);
-        let start = *ctx.ch.pick(&[0u8, 1, 100, 252]);
-        let tags: Vec<u8> = (0..ntags).map(|i| start.wrapping_add(i as u8)).collect();
+        let start = *ctx.ch.pick(&[0u8, 1, 100, 252, 254]);
+        let mut tags: Vec<u8> = (0..ntags).map(|i| start.wrapping_add(i as u8)).collect();
+        match ctx.ch.draw(3) {
+            0 => tags.reverse(),
+            1 => {
+                let p = ctx.ch.permutation(tags.len());
+                tags = p.iter().map(|&i| tags[i]).collect();
+            }
+            _ => {}
+        }
+        let registration = crate::props::c14::registration_list(ctx, &tags);
         let cfg = CCfg {
+            registration,
             n_servers: 1 + ctx.ch.index(3),
             n_clients: if long { 20 + ctx.ch.index(if ctx.thorough { 120 } else { 20 }) } else { 2 + ctx.ch.index(3) },
             tags,
